@@ -73,7 +73,9 @@ def resample_jackknife(observations: NDArray, patch_rows: bool = True) -> NDArra
     idx_range = np.arange(0, num_patches)
     idx_samples_full = np.tile(idx_range, num_patches)
 
-    idx_jackknife = np.delete(idx_samples_full, idx_range).reshape((num_patches, -1))
+    # remove the i-th patch from the i-th copy of the index range
+    idx_diagonal = idx_range * (num_patches + 1)
+    idx_jackknife = np.delete(idx_samples_full, idx_diagonal).reshape((num_patches, -1))
     return observations[idx_jackknife].sum(axis=1)
 
 
